@@ -112,7 +112,7 @@ package capnp
 //@     M(addr) == M(atOldInt(func() int { return len(rs.data) })))
 //@   ensures untouched: implies(err == nil, bytesUnchangedExcept(rs.data, int(addr), len(rs.data)))
 //@   ensures implies(err != nil, bytesUnchanged())
-//@   loop 0 "range space"
+//@   loop 0 of 1 "range space"
 //@     invariant 0 <= rangeidx && rangeidx <= len(space) && sameArr(space, s.data)
 //@     invariant M(addr) <= M(len(s.data)) && sameSlice(space, s.data[int(addr):])
 //@     invariant forall(0, rangeidx, func(j int) bool { return space[j] == 0 })
